@@ -35,8 +35,13 @@ def _unk(n: ast.AST) -> ast.AST:
 
 class FormEnv:
     def __init__(self, fn: ast.AST, sanitisers: Optional[Dict[str, str]] = None, param_forms: Optional[Dict[str, FrozenSet[str]]] = None,
-                 call_forms: Optional[Dict[str, FrozenSet[str]]] = None) -> None:
+                 call_forms: Optional[Dict[str, FrozenSet[str]]] = None, attr_forms: Optional[Dict[str, FrozenSet[str]]] = None) -> None:
         self.fn = fn
+        self.attr_forms = attr_forms or {}
+        self._parent: Dict[int, ast.AST] = {}
+        for _n in ast.walk(fn):
+            for _c in ast.iter_child_nodes(_n):
+                self._parent[id(_c)] = _n
         self.sanitisers = sanitisers or {}       # callee short name -> flag it grants
         self.param_forms = param_forms or {}
         self.call_forms = call_forms or {}       # callee short name -> flags of its result
@@ -87,6 +92,21 @@ class FormEnv:
                     if before:
                         defs = before
                 top_level = {id(st.value) for st in getattr(self.fn, 'body', []) if isinstance(st, (ast.Assign, ast.AnnAssign)) and getattr(st, 'value', None) is not None}
+                # a definition earlier in one of the statement lists enclosing the use is unconditional relative to the use
+                cur: Optional[ast.AST] = e
+                while cur is not None:
+                    par = self._parent.get(id(cur))
+                    if par is None:
+                        break
+                    for fld in ('body', 'orelse', 'finalbody'):
+                        seq = getattr(par, fld, None)
+                        if isinstance(seq, list) and any(x is cur for x in seq):
+                            for st in seq:
+                                if st is cur:
+                                    break
+                                if isinstance(st, (ast.Assign, ast.AnnAssign)) and getattr(st, 'value', None) is not None:
+                                    top_level.add(id(st.value))
+                    cur = par
                 killed = any(id(v) in top_level for v in defs)     # an unconditional re-assignment at function level precedes the use
                 if killed:
                     # only definitions from the last unconditional one onwards can reach the use
@@ -170,6 +190,10 @@ class FormEnv:
             return frozenset(fl)
         if isinstance(e, ast.NamedExpr):
             return self.form(e.value)
+        if isinstance(e, ast.Attribute):
+            d = dotted(e)
+            if d in self.attr_forms:
+                return self.attr_forms[d]
         return frozenset()
 
     def _params(self) -> Set[str]:
